@@ -2,7 +2,7 @@
 from ..ir import AnalysisBroken, strip_targs, qmatch
 from ..graph import Graph
 from ..expr import access_path, path_str, held_locks, reaching_defs, norm_cond, origins, leaves, defs_in_node
-from .common import strip_casts, short, comparison, expr_equal
+from .common import strip_casts, short, comparison, expr_equal, once_init, loops_over, loop_visits_every_element
 
 UNITS = ['sdk/src/trace/span.cc']
 DRIVERS = ['trace_headers.cc']
@@ -118,6 +118,21 @@ def rule_r2(ck, prog, cls='sdk::trace::Span', rule='C04.R2'):
         p = access_path(lab[1], core, a.ctx)
         if len(p) == 2 and p[0] == 'this' and p[1] in flag_fields:
             return (lab[2] if pol else not lab[2]) is False
+        if _is_flag_exchange(lab[1], lab[1].nodes[core], a.ctx):
+            return (lab[2] if pol else not lab[2]) is False      # the old value std::exchange / atomic exchange returned
+        return False
+
+    def _is_flag_exchange(ff, n, ctx):
+        """std::exchange(flag, true) / flag.exchange(true): reads the old value and sets the flag in one step"""
+        if n['k'] != 'call':
+            return False
+        c = strip_targs(n.get('c', ''))
+        if c == 'std::exchange' and len(n.get('args', [])) == 2:
+            p = access_path(ff, n['args'][0], ctx)
+            return len(p) == 2 and p[0] == 'this' and p[1] in flag_fields and strip_casts(ff, n['args'][1]).get('v') == 1
+        if c.rsplit('::', 1)[-1] == 'exchange' and n.get('obj') is not None and n.get('args'):
+            p = access_path(ff, n['obj'], ctx)
+            return len(p) == 2 and p[0] == 'this' and p[1] in flag_fields and strip_casts(ff, n['args'][0]).get('v') == 1
         return False
     oe = onends[0]
     ok = g.must_pass_edge(oe, not_ended_edge)
@@ -127,6 +142,7 @@ def rule_r2(ck, prog, cls='sdk::trace::Span', rule='C04.R2'):
     sets = [p for p in g.points if p.n is not None and p.n['k'] == 'binop' and p.n['op'] == '=' and
             len(access_path(f, p.n['lhs'], p.ctx)) == 2 and access_path(f, p.n['lhs'], p.ctx)[1] in flag_fields and
             strip_casts(f, p.n['rhs']).get('v') == 1]
+    sets += [p for p in g.points if p.n is not None and _is_flag_exchange(p.f, p.n, p.ctx)]
     ok = bool(sets) and g.must_pass(oe, sets)
     ck.verdict(ok, rule, f, 'flag-set-before-onend', sets[0].n if sets else oe.n,
                'ended flag set before OnEnd' if ok else 'OnEnd can be reached without the ended flag having been set: End is not idempotent')
@@ -138,6 +154,14 @@ def rule_r2(ck, prog, cls='sdk::trace::Span', rule='C04.R2'):
                'one OnEnd per path' if not multi and len(onends) == 1 else 'OnEnd can be called twice on one path')
     # argument is the moved recordable, and the member is reset afterwards on every path
     arg = oe.n['args'][0] if oe.n.get('args') else None
+    # (the recordable may first be moved into a local that is then handed over)
+    moved_local = None
+    if arg is not None and access_path(f, arg, oe.ctx)[:1] != ('this',):
+        local_ref = strip_casts(f, arg)
+        a_ = once_init(f, arg)
+        if 'i' in a_ and a_ is not local_ref and access_path(f, a_['i'], oe.ctx)[:1] == ('this',) and 'unique_ptr' in (local_ref.get('t') or ''):
+            moved_local = local_ref      # a unique_ptr local initialised by moving the member out
+            arg = a_['i']
     ok = arg is not None and access_path(f, arg, oe.ctx)[:1] == ('this',) and 'ecordable' in access_path(f, arg, oe.ctx)[-1]
     ck.verdict(ok, rule, f, 'onend-gets-the-recordable', oe.n, 'OnEnd receives the span\'s recordable' if ok else 'OnEnd is not handed the span\'s own recordable')
     fieldp = access_path(f, arg, oe.ctx) if arg is not None else None
@@ -145,6 +169,12 @@ def rule_r2(ck, prog, cls='sdk::trace::Span', rule='C04.R2'):
               strip_targs(p.n.get('c', '')).rsplit('::', 1)[-1] in ('reset', 'release', 'operator=') and
               access_path(f, p.n['obj'], p.ctx) == fieldp]
     ok = bool(resets) and g.must_reach(oe, resets)
+    if not ok and moved_local is not None:
+        # the member was emptied by the move construction of the local, before OnEnd
+        mp = [p for p in g.points if p.n is not None and p.n['k'] == 'declstmt' and any(d['id'] == moved_local.get('id') for d in p.n['decls'])]
+        if mp and g.must_pass(oe, mp):
+            ok = True
+            resets = mp
     ck.verdict(ok, rule, f, 'recordable-null-after-end', resets[0].n if resets else oe.n,
                'recordable member reset on every path after OnEnd' if ok else
                'after OnEnd a path leaves the recordable member non-null: later SetAttribute/AddEvent would write into a moved-from or exported recordable')
@@ -188,6 +218,31 @@ def _loop_facts(f, loop):
     return early
 
 
+_HELPER_CACHE = {}
+
+
+def _helper_visits_every_child(prog, h, container):
+    """None when helper h loops over this.<container> and invokes its callable parameter on every element on every path, with no
+    early exit; else the reason"""
+    key = (h.key, container)
+    if key in _HELPER_CACHE:
+        return _HELPER_CACHE[key]
+    g = Graph(prog, h, inline=None, sync_lambdas=False)
+    loops = loops_over(h, lambda ap: ap == ('this', container))
+    pids = {p['id'] for p in h.params}
+    visits = [p for p in g.points if p.n is not None and p.n['k'] == 'call' and
+              strip_casts(h, p.n['fx'] if p.n.get('fx') is not None else (p.n['obj'] if p.n.get('obj') is not None else -1)).get('id') in pids] \
+        if True else []
+    if len(loops) != 1:
+        r = 'does not loop over the children'
+    elif not visits:
+        r = 'never invokes its callback'
+    else:
+        r = loop_visits_every_element(g, h, loops[0], visits)
+    _HELPER_CACHE[key] = r
+    return r
+
+
 def rule_r4_multirecordable(ck, prog, cls='sdk::trace::MultiRecordable', base='sdk::trace::Recordable', rule='C04.R4',
                             container='recordables_', allow_child_null_check=False):
     rec = prog.record(cls)
@@ -204,6 +259,32 @@ def rule_r4_multirecordable(ck, prog, cls='sdk::trace::MultiRecordable', base='s
         if not loops:
             loops = [n for n in f.nodes if n['k'] in ('for', 'while', 'forrange')]
         if not loops:
+            # the fan-out may go through a private higher-order helper: `ForEachChild([&](Recordable &r) { r.SetName(name); })`.
+            # Then the helper visits every child unconditionally (flow-graph check on the helper), and the callback forwards.
+            via = None
+            for n in f.nodes:
+                h = prog.funcs.get(n.get('ck')) if n['k'] == 'call' else None
+                if h is None or h.cls != rec['qn'] or not h.blocks:
+                    continue
+                lams = [prog.funcs[f.nodes[k]['fn']] for a in n.get('args', []) if a is not None and a >= 0 for k in f.subtree(a)
+                        if f.nodes[k]['k'] == 'lambda' and f.nodes[k].get('fn') in prog.funcs]
+                if lams:
+                    via = (n, h, lams[0])
+            if via is not None:
+                hn, h, lf = via
+                why = _helper_visits_every_child(prog, h, container)
+                lcalls = [m for m in lf.nodes if m['k'] == 'call' and m.get('virt') and strip_targs(m.get('c', '')).rsplit('::', 1)[-1] == f.name]
+                branching = [m for m in lf.nodes if m['k'] in ('if', 'cond', 'SwitchStmt', 'while', 'for', 'do', 'forrange') or (m['k'] == 'binop' and m['op'] in ('&&', '||'))]
+                if why is not None:
+                    ck.violation(rule, f, site, hn, '%s fans out through %s, which %s' % (short(f), h.name, why))
+                elif len(lcalls) != 1 or branching:
+                    ck.violation(rule, f, site, hn, 'the callback handed to %s does not call %s on the child unconditionally' % (h.name, f.name))
+                else:
+                    args = [strip_casts(lf, a) for a in lcalls[0].get('args', [])]
+                    okargs = len(args) == len(f.params) and all(a['k'] == 'ref' and a.get('id') == p['id'] for a, p in zip(args, f.params))
+                    ck.verdict(okargs, rule, f, site, lcalls[0], 'all children (through %s), %d parameter(s) forwarded' % (h.name, len(f.params)) if okargs else
+                               'the parameters are not all forwarded in order to the child\'s %s' % f.name)
+                continue
             ck.violation(rule, f, site, None, '%s does not loop over the child recordables' % short(f))
             continue
         loop = loops[0]
